@@ -32,7 +32,7 @@ func execC18(req string) string {
 		}
 		return out
 	}
-	if f[0] != "adts.dec" && f[0] != "hist" {
+	if f[0] != "adts.dec" && f[0] != "adts.reenc" && f[0] != "hist" {
 		return run()
 	}
 	// the sync search is a loop over untrusted bytes: a search that never ends must not stall the whole check
@@ -109,8 +109,56 @@ func prepC18(op string, a []string) func() string {
 			return fmt.Sprintf("%d %d %d %d %d %d %d off=%d", h.ID, h.ObjectType, h.SamplingFrequencyIndex, h.ChannelConfig, h.HeaderLength,
 				h.PayloadLength, h.BufferFullness, off)
 		}
+	case "adts.reenc":
+		d, _ := unhx(a[0])
+		h, _, err := aac.DecodeADTSHeader(bytes.NewReader(d))
+		if err != nil {
+			return konst("err")
+		}
+		h2, off, err := aac.DecodeADTSHeader(bytes.NewReader(h.Encode()))
+		if err != nil {
+			return konst("err2")
+		}
+		return func() string {
+			return fmt.Sprintf("%d %d %d %d %d %d %d off=%d", h2.ID, h2.ObjectType, h2.SamplingFrequencyIndex, h2.ChannelConfig, h2.HeaderLength,
+				h2.PayloadLength, h2.BufferFullness, off)
+		}
 	}
 	return konst("bad-op")
+}
+
+// genC18Reencode: headers as DecodeADTSHeader returns them (with and without CRC, i.e. header length 7 and 9) are
+// encoded again; the second decode must give the same profile, frequency index, channels, payload length and fullness
+func genC18Reencode(c *Ctx) {
+	for i := 0; i < c.N(800, 20000); i++ {
+		sfi, ch, pl := c.R.Intn(13), c.R.Intn(8), 2+c.R.Intn(8180)
+		h := aac.ADTSHeader{ObjectType: byte(1 + c.R.Intn(4)), SamplingFrequencyIndex: byte(sfi), ChannelConfig: byte(ch), HeaderLength: 7,
+			PayloadLength: uint16(pl), BufferFullness: uint16(c.R.Intn(2048))}
+		data := h.Encode()
+		crc := c.R.Intn(2) == 0
+		if crc { // protection_absent = 0: two CRC bytes follow the 7 header bytes
+			data[1] &^= 1
+			data = append(data, byte(c.R.Intn(256)), byte(c.R.Intn(256)))
+		}
+		first := execC18("adts.dec " + hx(data))
+		req := "adts.reenc " + hx(data)
+		got := execC18(req)
+		c.Case(req, got)
+		c.Eval(req)
+		c.Count(fmt.Sprintf("reenc.crc=%v", crc))
+		ff, gf := strings.Fields(first), strings.Fields(got)
+		if len(ff) != 8 || len(gf) != 8 {
+			c.Fail("C18-adts-reencode", "a header returned by DecodeADTSHeader cannot be encoded and decoded again", req, got, first)
+			continue
+		}
+		// fields: id ot sfi ch headerLength payloadLength fullness off ; Encode always writes a 7-byte header without CRC
+		for _, k := range []int{0, 1, 2, 3, 5, 6} {
+			if ff[k] != gf[k] {
+				c.Fail("C18-adts-reencode", "DecodeADTSHeader(Encode(h)) differs from h for a header h returned by the decoder (field "+fmt.Sprint(k)+")", req, got, first)
+				break
+			}
+		}
+	}
 }
 
 var tableFreqs = []int{96000, 88200, 64000, 48000, 44100, 32000, 24000, 22050, 16000, 12000, 11025, 8000, 7350}
@@ -283,6 +331,7 @@ func genC18(c *Ctx) {
 		c.Eval("")
 	}
 	genC18SyncJunk(c)        // junk made of sync-word fragments (ff runs, ff + near-sync bytes), window edge, no sync at all
+	genC18Reencode(c)
 	genC18History(c, freqs) // results of earlier encode/decode calls after later calls have been made
 	// ---- AAC sample entry: SetAACDescriptor -> esds -> DecSpecificInfo -> ASC
 	for _, ot := range []int{2, 5, 29} {
